@@ -147,6 +147,9 @@ IsNumericText(bs) ==
      /\ p3 + Len(ed) = Len(b) + 1
 NumericText(bs) == IF bs[1] = 45 THEN DNeg(FromLiteral(Tail(bs))) ELSE FromLiteral(bs)
 \* a word of letters other than the spellings of the special values: certainly not a number
+\* texts that are no numbers although a number scanner may stop inside them without complaint: the empty text, a lone
+\* sign, cut-off spellings of inf / infinity / nan
+NaNTexts == { <<>>, <<45>>, <<43>>, <<105,110>>, <<110,97>>, <<105>>, <<105,110,102,105,110,105,116>>, <<45,105,110>> }
 IsPlainWord(bs) == Len(bs) > 0 /\ (\A i \in 1..Len(bs) : bs[i] \in {97, 98, 99, 120, 121, 122}) 
 
 \* pure builtins on arguments of their own kinds: <<"v", value>> | <<"e">> | <<"u">>
@@ -205,7 +208,7 @@ Pure(n, a) ==
     [] n = "toFloat" -> IF a[1][1] \in {"num", "nan", "inf"} THEN RV(a[1])
                         ELSE IF a[1][1] = "strnum" THEN RV(<<"num", a[1][2], a[1][3], a[1][4]>>)
                         ELSE IF a[1][1] = "str" /\ IsNumericText(a[1][2]) THEN RV(NumOf(NumericText(a[1][2])))
-                        ELSE IF a[1][1] = "str" /\ IsPlainWord(a[1][2]) THEN RV(<<"nan">>)
+                        ELSE IF a[1][1] = "str" /\ (IsPlainWord(a[1][2]) \/ a[1][2] \in NaNTexts) THEN RV(<<"nan">>)
                         ELSE RU
     \* toString of a number is "a text that parses back to that number": kept symbolic
     [] n = "toString" -> IF a[1][1] = "num" THEN RV(<<"strnum", a[1][2], a[1][3], a[1][4]>>)
